@@ -2,6 +2,7 @@ package rules
 
 import (
 	"fmt"
+	"go/token"
 	"go/types"
 	"strings"
 
@@ -269,7 +270,7 @@ func AnalyzeAdapters(p *load.Program, r *Roles, depth int) *UnitResult {
 		for _, pth := range exploreAdapter(p, r, res, fb, mode, nil, nil, nil, "C17.ENGINE") {
 			for _, uc := range pth.calls {
 				if uc.class == "field:CustomNode.execFallbackFunc" && len(uc.res) == 2 && len(pth.rets) == 2 {
-					col.CheckAt("C17.R2", "fallback:passthrough", pth.rets[0] == uc.res[0] && pth.rets[1] == uc.res[1], uc.pos, "CustomNode.ExecFallback must return the fallback function's results unchanged", nil)
+					col.CheckAt("C17.R2,C06.R8,C07.R7,C02.R4", "fallback:passthrough", pth.rets[0] == uc.res[0] && pth.rets[1] == uc.res[1], uc.pos, "CustomNode.ExecFallback must return the fallback function's results unchanged", nil)
 					checkConsumer("C17.R1", "fallback->post", post, 4, uc.res[0], nil, "field:CustomNode.postFunc", 3, nil, eng.TriFalse, []*eng.Term{uc.res[0]}, false)
 				}
 			}
@@ -517,7 +518,63 @@ func paramsIn(t *eng.Term) map[int]bool {
 	return out
 }
 
+// checkNoInterfaceCompare: the lifecycle code (Run, the batch runners, the flow walk, the phase
+// methods of the library's node types, and what they call) never compares two interface values
+// with == or != unless one side is the nil constant: for a dynamic type that is not comparable
+// (an error that is a slice or a map, a payload) such a comparison panics, and a run that panics
+// returns neither an action nor an error and passes no error on.
+func checkNoInterfaceCompare(p *load.Program, r *Roles, res *UnitResult) {
+	col := res.Col
+	seen := map[*ssa.Function]bool{}
+	var roots []*ssa.Function
+	if r.FnRun != nil {
+		roots = append(roots, r.FnRun)
+	}
+	for _, tn := range []string{"Flow", "CustomNode", "BatchNode", "NodeBuilder", "BatchNodeBuilder", "BaseNode"} {
+		for _, m := range []string{"Prep", "Exec", "Post", "ExecFallback", "Run"} {
+			if f := p.DeclaredMethod(tn, m); f != nil {
+				roots = append(roots, f)
+			}
+		}
+	}
+	n := 0
+	var visit func(fn *ssa.Function)
+	visit = func(fn *ssa.Function) {
+		if fn == nil || seen[fn] || len(fn.Blocks) == 0 || (fn.Pkg != p.SSA && fn.Parent() == nil) {
+			return
+		}
+		seen[fn] = true
+		n++
+		for _, a := range fn.AnonFuncs {
+			visit(a)
+		}
+		for _, b := range fn.Blocks {
+			for _, ins := range b.Instrs {
+				switch x := ins.(type) {
+				case *ssa.BinOp:
+					if (x.Op == token.EQL || x.Op == token.NEQ) && !isNilConst(x.X) && !isNilConst(x.Y) {
+						_, ix := x.X.Type().Underlying().(*types.Interface)
+						_, iy := x.Y.Type().Underlying().(*types.Interface)
+						if ix && iy && !isNamed(x.X.Type(), "reflect", "Type") {
+							col.Check("C01.R9,C04.R7", funcLabel(fn)+":interface-compare", false, p.Position(x.Pos()), "two interface values are compared with "+x.Op.String()+": for a dynamic type that is not comparable (an error or payload that is a slice, a map, a func) this panics - the run then returns neither an action nor an error", nil)
+						}
+					}
+				case ssa.CallInstruction:
+					if g := x.Common().StaticCallee(); g != nil && g.Pkg == p.SSA {
+						visit(g)
+					}
+				}
+			}
+		}
+	}
+	for _, f := range roots {
+		visit(f)
+	}
+	col.Check("C01.R9,C04.R7", "lifecycle:interface-compare", n > 0, p.Position(0), "no lifecycle function found to scan", nil)
+}
+
 func analyzeDelegators(p *load.Program, r *Roles, res *UnitResult) {
+	checkNoInterfaceCompare(p, r, res)
 	col := res.Col
 	phase := []string{"Prep", "Exec", "Post", "ExecFallback", "GetMaxRetries", "GetWait", "GetBatchConcurrency", "GetBatchErrorHandling"}
 	// inner methods are summarised as deterministic calls
